@@ -866,6 +866,9 @@ class XsdElement(XsdComponent, ParticleMixin,
                 counter.enabled = False
                 if isinstance(identity, XsdKeyref):
                     assert isinstance(counter, KeyrefCounter)
+                    if counter.refer is not None and counter.refer not in context.identities:
+                        # The referred key has no scope in the XML instance: no value is found
+                        context.identities[counter.refer] = counter.refer.get_counter(obj)
                     for error in counter.iter_errors(context.identities):
                         context.validation_error(validation, self, error, obj)
         elif context.level:
